@@ -29,12 +29,28 @@
 (* on a fresh copy of the DAG; the outputs are accumulated in `results`    *)
 (* and printed as one JSON line per DAG by the last action.  Everything is *)
 (* deterministic after Commit.                                             *)
+(*                                                                         *)
+(* Handlers with context arguments (fn = "dt").  DAGTraverser.__call__ of  *)
+(* ufl/corealg/dag_traverser.py is a memoised RECURSION: the rule bound to *)
+(* the node type (`process`) calls self(operand, **kwargs) for the         *)
+(* operands it wants, with the keyword arguments it chooses.  The model    *)
+(* keeps the Python call stack explicitly (`stk`) and takes one action per *)
+(* `self(node, **kwargs)` call made by a rule (cache hit, or cache miss =  *)
+(* entering `process`) and one per rule that returns (compress, store).    *)
+(* The context of a call is the ordered sequence of <<name, value>> pairs  *)
+(* (a Python kwargs dict); the memoisation key is (node, full context).    *)
+(* The property is the same as for map_expr_dags: the memoised result is   *)
+(* the result of applying the rules recursively to the TREE, where the     *)
+(* context travels down the tree (RecApplyKw).  `J.key` other than "full"  *)
+(* gives deliberately weakened cache keys: those jobs are not bound to the *)
+(* code, they show that the DAGs and rule tables of a run tell a full key  *)
+(* from a weaker one.                                                      *)
 (***************************************************************************)
 EXTENDS Naturals, Sequences, FiniteSets, TLC, Json
 
 CONSTANTS NMin, NMax,   \* DAGs have NMin..NMax nodes
           MaxArity,     \* operators have 1..MaxArity operands
-          Jobs,         \* sequence of [fn, table, compress, mode]
+          Jobs,         \* sequence of [fn, table, compress, mode, top, key]
           Shard, NShards, \* this run explores the DAGs d with ShardOf(d) = Shard (see ShardOf)
           OnlyConnected,  \* TRUE: only DAGs whose nodes are all reachable from the roots N, N-1
           Emit          \* TRUE: print one JSON line per DAG
@@ -46,15 +62,24 @@ LabRenFrom   == 1
 LabRenTo     == 2
 LabConst     == 3
 
-Fns    == {"pre", "post", "cutpost", "upre", "upost", "cutupost", "hash", "map"}
-Tables == {"none", "reuse", "rename", "renamenc", "const", "constcut"}
-Modes  == {"none", "list", "rlist", "calls"}
+Fns    == {"pre", "post", "cutpost", "upre", "upost", "cutupost", "hash", "map", "dt"}
+MapTables == {"reuse", "rename", "renamenc", "const", "constcut"}
+KwTables  == {"kwset", "kwadd", "kwfirst"}     \* rule tables whose rules take keyword arguments
+Tables == {"none"} \cup MapTables \cup KwTables
+MapModes == {"list", "rlist", "calls"}
+DtModes  == {"reuse", "shared", "fresh"}
+Modes  == {"none"} \cup MapModes \cup DtModes
+KeyAbs == {"full", "values", "names", "node", "valsorted"}
 
 ASSUME /\ NMin \in Nat /\ NMax \in Nat /\ 1 <= NMin /\ NMin <= NMax
        /\ \A j \in DOMAIN Jobs : /\ Jobs[j].fn \in Fns /\ Jobs[j].table \in Tables
                                  /\ Jobs[j].mode \in Modes /\ Jobs[j].compress \in BOOLEAN
-                                 /\ (Jobs[j].fn = "map") = (Jobs[j].table # "none")
-                                 /\ (Jobs[j].fn = "map") = (Jobs[j].mode # "none")
+                                 /\ Jobs[j].top \in 0..3 /\ Jobs[j].key \in KeyAbs
+                                 /\ (Jobs[j].fn = "map") = (Jobs[j].table \in MapTables)
+                                 /\ (Jobs[j].fn = "map") = (Jobs[j].mode \in MapModes)
+                                 /\ (Jobs[j].fn = "dt") = (Jobs[j].table \in KwTables)
+                                 /\ (Jobs[j].fn = "dt") = (Jobs[j].mode \in DtModes)
+                                 /\ (Jobs[j].fn # "dt") => (Jobs[j].top = 0 /\ Jobs[j].key = "full")
 
 ----------------------------------------------------------------------------
 (* generic helpers *)
@@ -125,9 +150,10 @@ VARIABLES dag,      \* the pristine input DAG (never changes)
           hashed,   \* compute_expr_hash: objects whose _hash is set
           results,  \* outputs of the finished jobs
           steps,    \* actions taken by the running job
-          jrec      \* the running job = Jobs[job]
+          jrec,     \* the running job = Jobs[job]
+          stk       \* DAGTraverser: the Python call stack, frames [e, kw, i, vals] (one per running rule)
 vars == <<dag, heap, job, pc, lifo, visited, out, cur, vcache, rcache, calls, ei, callno, res,
-          hashed, results, steps, jrec>>
+          hashed, results, steps, jrec, stk>>
 
 N        == Len(dag)
 ConstRen == N + 1
@@ -168,28 +194,28 @@ Init ==
   /\ job = 1 /\ pc = "build"
   /\ lifo = <<>> /\ visited = {} /\ out = <<>> /\ cur = 0
   /\ vcache = <<>> /\ rcache = {} /\ calls = <<>> /\ ei = 0 /\ callno = 0 /\ res = <<>>
-  /\ hashed = {} /\ results = <<>> /\ steps = 0 /\ jrec = Jobs[1]
+  /\ hashed = {} /\ results = <<>> /\ steps = 0 /\ jrec = Jobs[1] /\ stk = <<>>
 
 AddNode ==
   /\ pc = "build" /\ Len(dag) < NMax
   /\ Len(dag) >= NMax - 1 => ShardOf(dag) = Shard       \* nothing below here belongs to this shard
   /\ \E c \in NodeChoices(Len(dag) + 1) : dag' = Append(dag, c)
   /\ UNCHANGED <<heap, job, pc, lifo, visited, out, cur, vcache, rcache, calls, ei, callno, res,
-                 hashed, results, steps, jrec>>
+                 hashed, results, steps, jrec, stk>>
 
 \* a prefix of another shard that is too short to be a DAG of this run
 Prune ==
   /\ pc = "build" /\ Len(dag) < NMin /\ Len(dag) >= NMax - 1 /\ ShardOf(dag) # Shard
   /\ pc' = "skipped"
   /\ UNCHANGED <<dag, heap, job, lifo, visited, out, cur, vcache, rcache, calls, ei, callno, res,
-                 hashed, results, steps, jrec>>
+                 hashed, results, steps, jrec, stk>>
 
 Commit ==
   /\ pc = "build" /\ Len(dag) >= NMin
   /\ IF Selected(dag) THEN pc' = "start" /\ heap' = FreshHeap(dag)
                              ELSE pc' = "skipped" /\ UNCHANGED heap
   /\ UNCHANGED <<dag, job, lifo, visited, out, cur, vcache, rcache, calls, ei, callno, res,
-                 hashed, results, steps, jrec>>
+                 hashed, results, steps, jrec, stk>>
 
 \* ---- the first statements of a traversal generator (they run at the first next()) ----
 \* returns [h, vis, lifo]
@@ -206,15 +232,16 @@ Begin(kind, h, vis, r) ==
 StartJob ==
   /\ pc = "start"
   /\ steps' = steps + 1
-  /\ IF J.fn = "map"
+  /\ IF J.fn \in {"map", "dt"}
      THEN \* first call of map_expr_dags: vcache = {}; rcache = {}; visited = set();
           \* for expression in expressions: ...
+          \* DAGTraverser.__init__: self._visited_cache = {}; self._result_cache = {}
           /\ vcache' = <<>> /\ rcache' = {} /\ callno' = 1 /\ visited' = {} /\ ei' = 1
-          /\ pc' = "mapfor" /\ UNCHANGED <<heap, lifo>>
+          /\ pc' = (IF J.fn = "map" THEN "mapfor" ELSE "dtfor") /\ UNCHANGED <<heap, lifo>>
      ELSE LET b == Begin(J.fn, heap, {}, N) IN
           /\ heap' = b.h /\ visited' = b.vis /\ lifo' = b.lifo /\ pc' = "loop"
           /\ UNCHANGED <<vcache, rcache, callno, ei>>
-  /\ UNCHANGED <<dag, job, out, cur, calls, res, hashed, results, jrec>>
+  /\ UNCHANGED <<dag, job, out, cur, calls, res, hashed, results, jrec, stk>>
 
 \* map_expr_dags: `for expression in expressions:` -- start the traversal of the next expression
 MapFor ==
@@ -224,7 +251,7 @@ MapFor ==
      THEN LET b == Begin(Trav, heap, visited, Exprs[ei]) IN
           /\ heap' = b.h /\ visited' = b.vis /\ lifo' = b.lifo /\ pc' = "loop"
      ELSE /\ pc' = "mapret" /\ UNCHANGED <<heap, visited, lifo>>
-  /\ UNCHANGED <<dag, job, out, cur, vcache, rcache, calls, ei, callno, res, hashed, results, jrec>>
+  /\ UNCHANGED <<dag, job, out, cur, vcache, rcache, calls, ei, callno, res, hashed, results, jrec, stk>>
 
 \* ---- helpers of the loop bodies ----
 FirstSet(deps) == {i \in DOMAIN deps : deps[i] # 0}
@@ -309,7 +336,7 @@ Loop ==
              ELSE LET a == AfterYield(Trav, it.h, visited, it.lifo, it.y) IN
                   /\ heap' = a.h /\ visited' = a.vis /\ lifo' = a.lifo
                   /\ out' = Append(out, it.y) /\ cur' = it.y /\ pc' = "loop"
-  /\ UNCHANGED <<dag, job, vcache, rcache, calls, callno, res, results, jrec>>
+  /\ UNCHANGED <<dag, job, vcache, rcache, calls, callno, res, results, jrec, stk>>
 
 \* ---- map_expr_dags: the body of `for v in traversal(expression)` ----
 Keys(vc) == {vc[i].k : i \in DOMAIN vc}
@@ -367,7 +394,7 @@ Body ==
                /\ vcache' = Append(vcache, [k |-> v, v |-> r2])
                /\ calls' = Append(calls, <<v, lk.vals, hr.r>>)
                /\ pc' = "loop"
-  /\ UNCHANGED <<dag, job, out, cur, ei, callno, res, hashed, results, jrec>>
+  /\ UNCHANGED <<dag, job, out, cur, ei, callno, res, hashed, results, jrec, stk>>
 
 \* return [vcache[expression] for expression in expressions]
 MapRet ==
@@ -380,7 +407,140 @@ MapRet ==
              THEN \* the next call (same vcache and rcache): visited = set(); for expression in ...
                   callno' = callno + 1 /\ visited' = {} /\ ei' = 1 /\ pc' = "mapfor"
              ELSE pc' = "jobdone" /\ UNCHANGED <<callno, visited, ei>>
-  /\ UNCHANGED <<dag, job, lifo, out, cur, vcache, rcache, calls, hashed, results, jrec>>
+  /\ UNCHANGED <<dag, job, lifo, out, cur, vcache, rcache, calls, hashed, results, jrec, stk>>
+
+\* ---- DAGTraverser: memoised recursion with keyword arguments ----
+\* A context (the **kwargs of one call) is a sequence of <<name, value>> pairs in the order of the
+\* Python dict; names are KA, KB ("ka", "kb" in vf/checks/c19.py), values are small naturals.
+KA == 1
+KB == 2
+KwHas(kw, nm) == \E i \in DOMAIN kw : kw[i][1] = nm
+KwGet(kw, nm) == IF KwHas(kw, nm) THEN kw[CHOOSE i \in DOMAIN kw : kw[i][1] = nm][2] ELSE 0   \* kw.get(nm, 0)
+\* {**kw, nm: v}: an existing name keeps its position
+KwUpd(kw, nm, v) == IF KwHas(kw, nm) THEN [i \in DOMAIN kw |-> IF kw[i][1] = nm THEN <<nm, v>> ELSE kw[i]]
+                    ELSE Append(kw, <<nm, v>>)
+
+\* The rule tables (mirrored by DAGTraverser subclasses in vf/checks/c19.py).  A rule is given by the
+\* operand positions it passes to self(...), in call order, the keyword arguments of each of those
+\* calls, and what it builds from the processed operands.
+\*   all tables  terminal (label l): a terminal labelled LeafEnc(l, ka, kb); itself when ka = kb = 0
+\*   kwset       ExprList: reuse_if_untouched(o, **kwargs);
+\*               ExprMapping: operand 1, 3, .. with ONLY ka=1, operand 2, 4, .. with ONLY kb=1
+\*   kwadd       ExprList: @postorder rule, kwargs passed on;
+\*               ExprMapping: odd operands with {**kwargs, ka: ka+1}, even ones with {**kwargs, kb: kb+1}
+\*   kwfirst     ExprList: @postorder_only_children([0]) rule (the other operands are kept as they are);
+\*               ExprMapping of k operands: operand i with ka=i, kb=k+1-i
+KwChildren(table, lab, k) ==
+  IF table = "kwfirst" /\ lab = 10 THEN <<1>> ELSE [i \in 1..k |-> i]
+KwChild(table, lab, kw, i, k) ==
+  IF lab # CutType THEN kw
+  ELSE CASE table = "kwset"   -> IF i % 2 = 1 THEN << <<KA, 1>> >> ELSE << <<KB, 1>> >>
+         [] table = "kwadd"   -> IF i % 2 = 1 THEN KwUpd(kw, KA, KwGet(kw, KA) + 1)
+                                               ELSE KwUpd(kw, KB, KwGet(kw, KB) + 1)
+         [] table = "kwfirst" -> << <<KA, i>>, <<KB, k + 1 - i>> >>
+LeafEnc(l, kw) == IF KwGet(kw, KA) = 0 /\ KwGet(kw, KB) = 0 THEN l
+                  ELSE 10000 * l + 100 * KwGet(kw, KA) + KwGet(kw, KB)
+
+\* DAGTraverser.reuse_if_untouched and the rules of c19.py compare with `==`:
+\* all(nc == c for nc, c in zip(new, o.ufl_operands))
+ReuseIfEqual(h, v, args) ==
+  IF \A i \in DOMAIN args : Eq(h, h[v].ops[i], args[i])
+  THEN [h |-> h, r |-> v]
+  ELSE [h |-> Append(h, [lab |-> h[v].lab, ops |-> args]), r |-> Len(h) + 1]
+
+\* what the rule for node v returns once the operands it asked for are processed: [h, r]
+KwCombine(table, h, v, kw, vals) ==
+  LET l == h[v].lab IN
+  IF l < 10
+  THEN IF LeafEnc(l, kw) = l THEN [h |-> h, r |-> v]
+       ELSE [h |-> Append(h, [lab |-> LeafEnc(l, kw), ops |-> <<>>]), r |-> Len(h) + 1]
+  ELSE ReuseIfEqual(h, v, IF table = "kwfirst" /\ l = 10
+                          THEN <<vals[1]>> \o SubSeq(h[v].ops, 2, Len(h[v].ops)) ELSE vals)
+
+\* the memoisation key: cache_key = (node, tuple((k, v) for k, v in kwargs.items())).
+\* J.key # "full": deliberately weakened keys (not bound to the code, see InvDt and c19.py)
+KeyOf(key, kw) ==
+  CASE key = "full"      -> kw
+    [] key = "values"    -> [i \in DOMAIN kw |-> <<0, kw[i][2]>>]       \* tuple(kwargs.values())
+    [] key = "names"     -> [i \in DOMAIN kw |-> <<kw[i][1], 0>>]       \* tuple(kwargs)
+    [] key = "node"      -> <<>>                                        \* node alone
+    [] key = "valsorted" -> LET s == SortSeq([i \in DOMAIN kw |-> kw[i][2]], LAMBDA a, b : a < b)
+                            IN [i \in DOMAIN s |-> <<0, s[i]>>]         \* tuple(sorted(kwargs.values()))
+\* self._visited_cache[cache_key]: dict lookup by == on (node, context).  The identity side effect
+\* of a successful == (Dagify) is not carried for these jobs: their observables are structural.
+DtHits(vc, h, x, ck) == {j \in DOMAIN vc : vc[j].c = ck /\ Eq(h, vc[j].k, x)}
+DtVal(vc, h, x, ck)  == vc[CHOOSE j \in DtHits(vc, h, x, ck) : TRUE].v
+
+\* the expressions the traverser is applied to, and the keyword arguments of those top-level calls
+DtExprs == IF N = 1 THEN <<1, 1>> ELSE <<N - 1, N>>
+TopKw(top, i) ==
+  CASE top = 0 -> <<>>
+    [] top = 1 -> IF i = 1 THEN << <<KB, 1>> >> ELSE << <<KA, 1>> >>
+    [] top = 2 -> IF i = 1 THEN << <<KA, 1>>, <<KB, 2>> >> ELSE << <<KB, 2>>, <<KA, 1>> >>
+    [] top = 3 -> IF i = 1 THEN << <<KA, 2>>, <<KB, 1>> >> ELSE << <<KA, 1>>, <<KB, 2>> >>
+
+\* `for e, kw in zip(exprs, top-level kwargs): res.append(traverser(e, **kw))`.  Mode "reuse": one
+\* traverser object; "shared": one object per expression, all given the same visited_cache and
+\* result_cache dicts; "fresh": one object per expression with its own caches.
+DtFor ==
+  /\ pc = "dtfor"
+  /\ steps' = steps + 1
+  /\ IF ei <= Len(DtExprs)
+     THEN LET x  == DtExprs[ei]
+              kw == TopKw(J.top, ei)
+              new == J.mode = "fresh" /\ ei > 1
+              vc == IF new THEN <<>> ELSE vcache
+              rc == IF new THEN {} ELSE rcache
+          IN
+          /\ vcache' = vc /\ rcache' = rc
+          /\ IF DtHits(vc, heap, x, KeyOf(J.key, kw)) # {}
+             THEN /\ res' = Append(res, DtVal(vc, heap, x, KeyOf(J.key, kw))) /\ ei' = ei + 1
+                  /\ UNCHANGED <<stk, pc>>
+             ELSE /\ stk' = <<[e |-> x, kw |-> kw, i |-> 1, vals |-> <<>>]>> /\ pc' = "dtrun"
+                  /\ UNCHANGED <<res, ei>>
+     ELSE pc' = "jobdone" /\ UNCHANGED <<vcache, rcache, stk, res, ei>>
+  /\ UNCHANGED <<dag, heap, job, lifo, visited, out, cur, calls, callno, hashed, results, jrec>>
+
+\* The rule on top of the call stack either makes its next call self(operand, **kwargs) -- a cache
+\* hit hands the stored value back at once, a miss enters `process` for the operand (new frame) --
+\* or, all its calls made, returns: __call__ compresses the result, stores it under the key and
+\* returns it to the rule below (or to the top level).
+DtStep ==
+  /\ pc = "dtrun"
+  /\ steps' = steps + 1
+  /\ LET f    == Last(stk)
+         l    == heap[f.e].lab
+         k    == Len(heap[f.e].ops)
+         todo == KwChildren(J.table, l, k)
+     IN
+     IF f.i <= Len(todo)
+     THEN LET p   == todo[f.i]
+              x   == heap[f.e].ops[p]
+              ckw == KwChild(J.table, l, f.kw, p, k)
+              ck  == KeyOf(J.key, ckw)
+          IN
+          /\ IF DtHits(vcache, heap, x, ck) # {}
+             THEN stk' = [stk EXCEPT ![Len(stk)] =
+                            [f EXCEPT !.i = f.i + 1, !.vals = Append(f.vals, DtVal(vcache, heap, x, ck))]]
+             ELSE stk' = Append(stk, [e |-> x, kw |-> ckw, i |-> 1, vals |-> <<>>])
+          /\ UNCHANGED <<heap, vcache, rcache, calls, res, ei, pc>>
+     ELSE LET hr  == KwCombine(J.table, heap, f.e, f.kw, f.vals)
+              hit == J.compress /\ Found(hr.h, rcache, hr.r)
+              \* result = self._result_cache[result]  /  self._result_cache[result] = result
+              r2  == IF hit THEN Stored(hr.h, rcache, hr.r) ELSE hr.r
+              below == Front(stk)
+          IN
+          /\ heap' = hr.h
+          /\ rcache' = IF J.compress /\ ~hit THEN rcache \cup {hr.r} ELSE rcache
+          /\ vcache' = Append(vcache, [k |-> f.e, c |-> KeyOf(J.key, f.kw), v |-> r2])
+          /\ calls' = Append(calls, <<f.e, f.kw, hr.r>>)
+          /\ IF below = <<>>
+             THEN stk' = <<>> /\ res' = Append(res, r2) /\ ei' = ei + 1 /\ pc' = "dtfor"
+             ELSE /\ stk' = [below EXCEPT ![Len(below)] =
+                              [e |-> Last(below).e, kw |-> Last(below).kw, i |-> Last(below).i + 1,
+                               vals |-> Append(Last(below).vals, r2)]]
+                  /\ UNCHANGED <<res, ei, pc>>
+  /\ UNCHANGED <<dag, job, lifo, visited, out, cur, callno, hashed, results, jrec>>
 
 \* ---- bookkeeping between jobs ----
 JobDone ==
@@ -389,7 +549,11 @@ JobDone ==
         [out |-> out,
          \* traverse_terminals / traverse_unique_terminals: the same generator, filtered
          leaves |-> IF J.fn \in {"pre", "upre"} THEN SelectSeq(out, LAMBDA x : IsLeaf(dag, x)) ELSE <<>>,
-         res |-> res, calls |-> calls,
+         res |-> res,
+         \* dt: <<node, context, term of what the rule returned>> in the order the rules return
+         calls |-> IF J.fn = "dt"
+                   THEN [i \in DOMAIN calls |-> <<calls[i][1], calls[i][2], Term(heap, calls[i][3])>>]
+                   ELSE calls,
          rterms |-> [i \in 1..Len(res) |-> Term(heap, res[i])],
          fin |-> [n \in 1..N |-> heap[n].ops]])
   /\ heap' = FreshHeap(dag)
@@ -397,7 +561,7 @@ JobDone ==
   /\ pc' = IF job = Len(Jobs) THEN "finish" ELSE "start"
   /\ lifo' = <<>> /\ visited' = {} /\ out' = <<>> /\ cur' = 0
   /\ vcache' = <<>> /\ rcache' = {} /\ calls' = <<>> /\ ei' = 0 /\ callno' = 0 /\ res' = <<>>
-  /\ hashed' = {} /\ steps' = 0
+  /\ hashed' = {} /\ steps' = 0 /\ stk' = <<>>
   /\ jrec' = IF job = Len(Jobs) THEN jrec ELSE Jobs[job + 1]
   /\ UNCHANGED dag
 
@@ -405,13 +569,13 @@ Finish ==
   /\ pc = "finish"
   /\ pc' = "done"
   /\ UNCHANGED <<dag, heap, job, lifo, visited, out, cur, vcache, rcache, calls, ei, callno, res,
-                 hashed, results, steps, jrec>>
+                 hashed, results, steps, jrec, stk>>
   /\ Emit => PrintT(ToJson([dag |-> dag, results |-> results]))
 
 Done == pc \in {"done", "skipped"} /\ UNCHANGED vars
 
 Next == AddNode \/ Prune \/ Commit \/ StartJob \/ MapFor \/ Loop \/ Body \/ MapRet
-        \/ JobDone \/ Finish \/ Done
+        \/ DtFor \/ DtStep \/ JobDone \/ Finish \/ Done
 Spec == Init /\ [][Next]_vars /\ WF_vars(Next)
 
 ----------------------------------------------------------------------------
@@ -467,7 +631,17 @@ RecApply(table, n) ==
     [] table \in {"const", "constcut"} ->
          IF Lab(n) = CutType THEN <<LabConst, <<>>>> ELSE <<Lab(n), sub>>
 
-Working == pc \in {"start", "mapfor", "loop", "body", "mapret", "jobdone", "KeyError"}
+\* applying a rule table with keyword arguments recursively to the TREE: the context travels down
+\* the tree, nothing is remembered
+RECURSIVE RecApplyKw(_, _, _)
+RecApplyKw(table, n, kw) ==
+  IF Lab(n) < 10 THEN <<LeafEnc(Lab(n), kw), <<>>>>
+  ELSE LET k == Len(Ops(n)) IN
+       <<Lab(n), [i \in 1..k |-> IF i \in Range(KwChildren(table, Lab(n), k))
+                                 THEN RecApplyKw(table, Ops(n)[i], KwChild(table, Lab(n), kw, i, k))
+                                 ELSE Cls(Ops(n)[i])]>>
+
+Working == pc \in {"start", "mapfor", "loop", "body", "mapret", "dtfor", "dtrun", "jobdone", "KeyError"}
 AtEnd(f) == pc = "jobdone" /\ J.fn = f
 
 InvPre ==
@@ -528,6 +702,31 @@ InvMapCache ==
     \* compress: structurally equal results are one object
     /\ J.compress => \A i, j \in DOMAIN vcache :
                         Eq(heap, vcache[i].v, vcache[j].v) => vcache[i].v = vcache[j].v
+\* DAGTraverser with keyword arguments: the memoised result is the result of the tree recursion
+InvDt ==
+  (AtEnd("dt") /\ J.key = "full") =>
+    /\ Len(res) = Len(DtExprs)
+    /\ \A i \in DOMAIN res : Term(heap, res[i]) = RecApplyKw(J.table, DtExprs[i], TopKw(J.top, i))
+InvDtCache ==
+  (Working /\ J.fn = "dt" /\ J.key = "full") =>
+    \* every cache entry is keyed by (node, full context) and holds the tree-recursive result
+    /\ \A i \in DOMAIN vcache : /\ vcache[i].k \in 1..N
+                                /\ Term(heap, vcache[i].v) = RecApplyKw(J.table, vcache[i].k, vcache[i].c)
+    \* a rule runs once per (structurally distinct node, context)
+    /\ \A i, j \in DOMAIN vcache :
+          i # j => ~(vcache[i].c = vcache[j].c /\ Cls(vcache[i].k) = Cls(vcache[j].k))
+    /\ J.mode # "fresh" => Len(calls) = Len(vcache)
+    /\ J.compress => \A i, j \in DOMAIN vcache :
+                        Eq(heap, vcache[i].v, vcache[j].v) => vcache[i].v = vcache[j].v
+    \* the running rules: results collected so far are those of the tree recursion
+    /\ \A d \in DOMAIN stk :
+          LET f == stk[d]
+              k == Len(Ops(f.e))
+              todo == KwChildren(J.table, Lab(f.e), k) IN
+          /\ f.e \in 1..N /\ f.i \in 1..(Len(todo) + 1) /\ Len(f.vals) = f.i - 1
+          /\ \A m \in DOMAIN f.vals :
+                Term(heap, f.vals[m]) =
+                  RecApplyKw(J.table, Ops(f.e)[todo[m]], KwChild(J.table, Lab(f.e), f.kw, todo[m], k))
 InvNoKeyError == pc # "KeyError"
 \* `==` never changes the value of an object, and the sets stay keyed by ==
 InvStructure ==
@@ -535,9 +734,13 @@ InvStructure ==
   /\ \A n \in 1..N : Term(heap, n) = Term(dag, n)
   /\ \A a, b \in visited : Eq(heap, a, b) => a = b
   /\ \A a, b \in rcache : Eq(heap, a, b) => a = b
-InvSteps == Working => steps <= 8 * TreeSize(N) + 20
+InvSteps == Working => steps <= IF J.fn = "dt"
+                                THEN 2 * (TreeSize(N) + TreeSize(IF N = 1 THEN 1 ELSE N - 1)) + 6
+                                ELSE 8 * TreeSize(N) + 20
 InvType ==
-  /\ pc \in {"build", "skipped", "start", "mapfor", "loop", "body", "mapret", "jobdone", "KeyError", "finish", "done"}
+  /\ pc \in {"build", "skipped", "start", "mapfor", "loop", "body", "mapret", "dtfor", "dtrun", "jobdone",
+            "KeyError", "finish", "done"}
+  /\ (stk # <<>>) = (pc = "dtrun")
   /\ job \in 1..(Len(Jobs) + 1)
   /\ visited \subseteq 1..Len(heap) /\ rcache \subseteq 1..Len(heap) /\ hashed \subseteq 1..N
   /\ \A i \in DOMAIN lifo : lifo[i].e \in 1..N
